@@ -1121,6 +1121,7 @@ func (p *context) compileInstr(b llssa.Builder, instr ssa.Instruction) {
 		}
 		if p.returnNeedsImplicitRunDefers(v) {
 			b.RunDefers()
+			p.reloadNamedResults(b, v, results)
 		}
 		b.Return(results...)
 	case *ssa.If:
@@ -1298,6 +1299,29 @@ func (p *context) returnNeedsImplicitRunDefers(ret *ssa.Return) bool {
 		return false
 	}
 	return p.functionHasExplicitStackDeferInAnon(fn)
+}
+
+// reloadNamedResults loads the named results again after an implicit
+// RunDefers. go/ssa stores the operands of a return statement into the named
+// results, runs the deferred calls and then loads the results; it drops that
+// rundefers when the function itself has no defer statement, which leaves the
+// loads in front of the RunDefers emitted here, so a deferred closure
+// registered by a range-over-func body could not change the result.
+func (p *context) reloadNamedResults(b llssa.Builder, ret *ssa.Return, results []llssa.Expr) {
+	sig := ret.Parent().Signature.Results()
+	for i, r := range ret.Results {
+		load, ok := r.(*ssa.UnOp)
+		if !ok || load.Op != token.MUL || i >= sig.Len() {
+			continue
+		}
+		alloc, ok := load.X.(*ssa.Alloc)
+		if !ok {
+			continue
+		}
+		if res := sig.At(i); res.Name() != "" && res.Pos() == alloc.Pos() {
+			results[i] = b.Load(p.compileValue(b, alloc))
+		}
+	}
 }
 
 func previousNonDebugInstrIsRunDefers(ret *ssa.Return) bool {
